@@ -11547,7 +11547,25 @@ CK_RV SoftHSM::deriveSymmetric
 		// Check the key handle.
 		otherKey = (OSObject *)handleManager->getObject(*phOtherKey);
 		if (otherKey == NULL_PTR || !otherKey->isValid()) return CKR_OBJECT_HANDLE_INVALID;
-		if (otherKey->getBooleanValue(CKA_PRIVATE, true)) {
+
+		// The second key is key material of this derivation as well: the access
+		// rules and the key's mechanism restrictions apply to it
+		CK_BBOOL isOtherKeyOnToken = otherKey->getBooleanValue(CKA_TOKEN, false);
+		CK_BBOOL isOtherKeyPrivate = otherKey->getBooleanValue(CKA_PRIVATE, true);
+		CK_RV rvOther = haveRead(session->getState(), isOtherKeyOnToken, isOtherKeyPrivate);
+		if (rvOther != CKR_OK)
+		{
+			if (rvOther == CKR_USER_NOT_LOGGED_IN)
+				INFO_MSG("User is not authorized");
+
+			return rvOther;
+		}
+		if (otherKey->getUnsignedLongValue(CKA_CLASS, CKO_VENDOR_DEFINED) != CKO_SECRET_KEY)
+			return CKR_KEY_TYPE_INCONSISTENT;
+		if (!isMechanismPermitted(otherKey, pMechanism))
+			return CKR_MECHANISM_INVALID;
+
+		if (isOtherKeyPrivate) {
 			bool bOK = token->decrypt(otherKey->getByteStringValue(CKA_VALUE), data);
 			if (!bOK) return CKR_GENERAL_ERROR;
 		} else {
